@@ -13,6 +13,7 @@ filters' output at three observation points (flattened events, serialised text, 
 and the Lean reader is diffed with expat on the serialiser's output.
 """
 import json
+import re
 from harness import gen_xml, proto, evwire
 from harness.framework import Result, pmap
 from harness.proto import Atom, B
@@ -466,6 +467,20 @@ class Corr(object):
                         self.res.disagreements.append({'stream': stream, 'case': case,
                                                        'model': 'inside docOK and idemOK but flatten(reparse(flatten)) != flatten',
                                                        'real': 'theorem ser_idempotent_partial'})
+                if len(model) >= 15:
+                    inb, bholds = (str(model[10]) == 'T'), (str(model[11]) == 'T')
+                    self.res.count('theorem-idem-builder-domain:%s:%s' % (stream, 'inside' if inb else 'outside'))
+                    if inb and not bholds:
+                        self.res.disagreements.append({'stream': stream, 'case': case,
+                                                       'model': 'inside docOK and builderShaped but flatten(reparse(flatten)) != flatten (mod None/"")',
+                                                       'real': 'theorem ser_idempotent_builder_events'})
+                    inbt, inpt, tih = (str(model[12]) == 'T'), (str(model[13]) == 'T'), (str(model[14]) == 'T')
+                    self.res.count('theorem-idem-text-domain:%s:%s' % (
+                        stream, 'builder' if inbt else 'parsed' if inpt else 'outside'))
+                    if (inbt or inpt) and not tih:
+                        self.res.disagreements.append({'stream': stream, 'case': case,
+                                                       'model': 'inside the text-level idempotence hypotheses (ascii) but ser(parseText(enc(ser))) != ser',
+                                                       'real': 'theorem ser_idempotent_builder / ser_idempotent_parsed_text'})
                 continue
             if post:
                 model = post(model)
@@ -580,6 +595,44 @@ def stats_key(doc):
     return '+'.join(sorted(gen_xml.doc_stats(doc)))
 
 
+_TAG_RE = re.compile(r'<([^/!?\s>][^\s/>]*)((?:\s+[^\s=]+="[^"]*")*)\s*(/?)>|</[^>]*>')
+_ATTR_RE = re.compile(r'([^\s=]+)="([^"]*)"')
+
+
+def builder_output_shape(text):
+    """which namespace constructs the flattener wrote for a builder tree (read off the real output):
+    distinct URIs, declarations below the root that re-bind or undeclare the default namespace,
+    made-up prefixes for attributes / elements"""
+    tags = set()
+    uris = set()
+    depth = 0
+    for m in _TAG_RE.finditer(text):
+        if m.group(0).startswith('</'):
+            depth -= 1
+            continue
+        name, attrs, empty = m.group(1), m.group(2) or '', m.group(3)
+        for a, v in _ATTR_RE.findall(attrs):
+            if a == 'xmlns':
+                if v:
+                    uris.add(v)
+                if depth > 0:
+                    tags.add('default-undeclared' if not v else 'default-rebound')
+            elif a.startswith('xmlns:'):
+                uris.add(v)
+                tags.add('made-up-prefix')
+            elif ':' in a and not a.startswith('xml:'):
+                tags.add('ns-attr-made-up-prefix')
+        if ':' in name:
+            tags.add('element-with-prefix')
+        if not empty:
+            depth += 1
+    if len(uris) >= 2:
+        tags.add('uris>=2')
+    if len(uris) >= 3:
+        tags.add('uris>=3')
+    return tags
+
+
 def shard(arg):
     import random
     from genshi.input import XML
@@ -675,6 +728,27 @@ def shard(arg):
         corr.add_events(events, case, tag='-builder')
         if i % 5 == 0:
             corr.add_events(events, case, pref={'u1': 'k', 'u2': '', 'urn:x:y': 'ns1'}, tag='-builder-pref')
+        # what the flattener had to make up for this tree (measured on the real output), and the second pass:
+        # the parser's view of that output against `parseText`, and the real flattener on the parsed stream
+        # (made-up declarations met as explicit ones) against the model
+        try:
+            out = ''.join(_ser(events))
+        except Exception:  # noqa
+            res.count('tree:serializer-raised')
+            continue
+        shape = builder_output_shape(out)
+        for t in shape:
+            res.count('tree-out:' + t)
+        if {'default-rebound', 'ns-attr-made-up-prefix', 'uris>=2'} <= shape:
+            res.count('tree-out:all-three')
+        if tree_in_domain(tree) and i % 2 == 0:
+            corr.add_reparse(out, {'kind': 'read', 'text': out})
+            try:
+                events2 = list(XML(out))
+            except Exception:  # noqa
+                res.count('tree:output-not-parsed')
+                continue
+            corr.add_events(events2, {'kind': 'doc', 'text': out}, tag='-builder-second')
     for i in range(nwild):
         w = gen_wild(rng)
         case = {'kind': 'wild', 'events': _wire_json(w)}
